@@ -146,6 +146,35 @@ def exclusion(tier):
     return fn
 
 
+def long_history(b, sym):
+    """patterns accumulate over more than nine generations"""
+    b.mkfile("R/a.txt", 1)
+    b.mkfile("R/d/x.tmp", 2)
+    b.mkfile("R/d/y.bak", 3)
+    nested = sym.flag("nested_history_at_d")
+    if nested:
+        r = b.run("create", root="R/d", h=["md5"])
+    late = sym.choose("pattern_added_in_generation", [9, 10, 11])
+    eff = list(DEFAULTS)
+    for g in range(1, 13):
+        pats = []
+        if g == 3:
+            pats = ["*.bak"]
+        if g == late:
+            pats = ["*.tmp"]
+        names_before = {x: b.manifest_names(x) for x in (["R", "R/d"] if nested else ["R"])}
+        r = b.run("create", root="R", h=["md5"], i=pats)
+        eff += [p for p in pats if p not in eff]
+        b.require(r.exit == 0 and r.exc is None, "create-exit-0", "generation %d: %s" % (g, r))
+        roots, news = new_manifests(b, None, names_before, "R")
+        b.require(news["R"][0].ignore == eff, "pattern-list-persists", "generation %d: %r vs %r" % (g, news["R"][0].ignore, eff))
+        ignored = cm.make_ignored(eff, "R")
+        check_records(b, "R", ["md5"], roots, news, cm.expected_records(b, "R", roots, ignored), tag="generation %d: " % g)
+    for cmd in ("verify", "diff"):
+        r = b.run(cmd, root="R")
+        b.require(r.exit == 0, "ignored-change-no-failure", "%s after 12 generations: %s" % (cmd, r))
+
+
 def harnesses(tier):
     out = ["gitwildmatch semantics themselves (pathspec library, run for real on concrete paths)", "patterns that exclude a nested history root",
            "negated patterns (!x)"]
@@ -154,6 +183,9 @@ def harnesses(tier):
                 what="MHLIgnoreSpec with 0-3 previous and 0-3 new patterns of symbolic identity: result = previous (or defaults) + new in order of "
                      "first appearance, no duplicates",
                 bounds={"previous": "0-3 distinct", "new": "0-3 (duplicates allowed)", "identities": "4 values, compared symbolically"}, outside=out),
+        Harness("c12-long", long_history, frontier=3, budget_s=900,
+                what="12 generations (flat or with a nested history), patterns added in generation 3 and in generation 9 / 10 / 11: lists and exclusions persist",
+                bounds={"generations": 12}, outside=out),
         Harness("c12-exclusion", exclusion(tier), frontier=6, budget_s=2400,
                 what="tree with entries matching 6 pattern kinds (glob, base name, path, directory, anchored) + .DS_Store, flat or with a nested history; "
                      "patterns via -i, repeated -i, -ii; then edits of ignored entries and verify / verify -dh / diff / create / create -sf",
